@@ -95,6 +95,10 @@ def emit(value, placeholder):
         return "{" + ", ".join(["__type__: vplug.snap_type"] + items) + "}"
     if kind == "alias":
         return "*" + value[1]
+    if kind == "rec":  # a value that holds itself: YAML can express it, lazily evaluated tags receive it
+        if value[2] == "list":
+            return "&%s [1, *%s, {deep: *%s}]" % (value[1], value[1], value[1])
+        return "&%s {me: *%s, k: 2, items: [*%s]}" % (value[1], value[1], value[1])
     if kind == "anchor":
         return "&%s %s" % (value[1], emit(value[2], placeholder))
     _, tag, form, inner = value
@@ -135,6 +139,13 @@ def gen_element(rnd, position, n):
             kwargs[1] = (kwargs[1][0], ("alias", "anc%d" % position))
     elif form == "list":
         args = [gen_value(rnd, allow_tag=True) for _ in range(rnd.randint(1, 3))]
+    if syntax == "tag" and cls != "VPoolNow" and form in ("map", "list") and rnd.random() < 0.08:
+        rec = ("rec", "rec%d" % position, rnd.choice(["list", "map"]))
+        if form == "map":
+            free = [k for k in KEYS if k not in [k0 for k0, _ in kwargs]]
+            kwargs.append((rnd.choice(free), rec))
+        else:
+            args.insert(rnd.randint(0, len(args)), rec)
     # how a __type__ element names its class: directly, through a namespace class, or by an alternative constructor
     typename = rnd.choice(["vplug.%s", "vplug.%s", "vplug.Site.%s", "vplug.%s.build"]) % cls
     return {"cls": cls, "syntax": syntax, "form": form, "args": args, "kwargs": kwargs, "typename": typename}
@@ -188,6 +199,7 @@ def document(case):
 
 
 # ------------------------------------------------------------------------------ oracle
+ON_PATH = {}  # id(configured container) -> id(received container) for the containers being compared right now
 SNAPSHOT_OWNERS = {}  # id(nested object) -> (id(reference placeholder), path): reset per document
 
 
@@ -216,18 +228,31 @@ def compare(actual, expected, eager_seen, problems, path):
             compare(dict(actual.orig[1]), want_kwargs, eager_seen, problems, path + "!kwargs-at-call")
             eager_seen.append(len(problems) == before)
         return
+    if isinstance(expected, (dict, list)) and id(expected) in ON_PATH:
+        # the configured value holds itself: so must the received one, at the same place
+        if id(actual) != ON_PATH[id(expected)]:
+            problems.append("%s: the configured value holds itself here, the constructor received another object (%.80r)" % (path, actual))
+        return
     if isinstance(expected, dict):
         if type(actual) is not dict or set(actual) != set(expected):
-            problems.append("%s: configured mapping %r, constructor received %r" % (path, expected, actual))
+            problems.append("%s: configured mapping %.200r, constructor received %.200r" % (path, expected, actual))
             return
-        for k in expected:
-            compare(actual[k], expected[k], eager_seen, problems, "%s.%s" % (path, k))
+        ON_PATH[id(expected)] = id(actual)
+        try:
+            for k in expected:
+                compare(actual[k], expected[k], eager_seen, problems, "%s.%s" % (path, k))
+        finally:
+            del ON_PATH[id(expected)]
     elif isinstance(expected, list):
         if type(actual) is not list or len(actual) != len(expected):
-            problems.append("%s: configured list %r, constructor received %r" % (path, expected, actual))
+            problems.append("%s: configured list %.200r, constructor received %.200r" % (path, expected, actual))
             return
-        for i, item in enumerate(expected):
-            compare(actual[i], item, eager_seen, problems, "%s[%d]" % (path, i))
+        ON_PATH[id(expected)] = id(actual)
+        try:
+            for i, item in enumerate(expected):
+                compare(actual[i], item, eager_seen, problems, "%s[%d]" % (path, i))
+        finally:
+            del ON_PATH[id(expected)]
     else:
         same = type(actual) is type(expected) and (actual == expected or (actual != actual and expected != expected))
         if not same:
@@ -250,34 +275,53 @@ def expected_args(e):
     return [], {}
 
 
-def realise(value):
+def realise(value, memo=None):
     """Reference decoding -> real argument values (placeholders become nested tag objects)."""
     import vplug
 
+    memo = {} if memo is None else memo
+    if id(value) in memo:
+        return memo[id(value)]
+    memo.setdefault("alive", []).append(value)
     if isinstance(value, dict) and "__nested__" in value:
         factory = {"VSnapLazy": vplug.snap_lazy, "VSnapEager": vplug.snap_eager, "VSnapType": vplug.snap_type}[value["__nested__"]]
-        inner = realise(value["value"])
+        inner = realise(value["value"], memo)
         if value["form"] == "map":
             return factory(**inner)
         if value["form"] == "list":
             return factory(*inner)
         return factory()
     if isinstance(value, dict):
-        return {k: realise(v) for k, v in value.items()}
+        out = memo[id(value)] = {}
+        out.update((k, realise(v, memo)) for k, v in value.items())
+        return out
     if isinstance(value, list):
-        return [realise(v) for v in value]
+        out = memo[id(value)] = []
+        out.extend(realise(v, memo) for v in value)
+        return out
     return value
 
 
-def python_pipeline(case):
-    """The same pipeline built in Python with >> (arguments taken from the reference decoding)."""
+def python_pipeline(case, grouping="right"):
+    """The same pipeline built in Python with >> (arguments taken from the reference decoding).
+
+    grouping "right": a >> (b >> (c >> pool)), the way the loader binds; "left": a >> b >> c >> pool as one writes it.
+    """
     import vplug
 
-    chain = None
-    for e in reversed(case["elements"]):
+    templates = []
+    for e in case["elements"]:
         args, kwargs = expected_args(e)
         cls = getattr(vplug, "VPool" if e["cls"] == "VPoolNow" else e["cls"])
-        tmpl = cls.s(*realise(args), **realise(kwargs))
+        templates.append(cls.s(*realise(args), **realise(kwargs)))
+    if grouping == "left":
+        chain = templates[0]
+        for tmpl in templates[1:-1]:
+            chain = chain >> tmpl
+        tail = templates[-1].__construct__()
+        return tail if len(templates) == 1 else chain >> tail
+    chain = None
+    for tmpl in reversed(templates):
         chain = tmpl.__construct__() if chain is None else tmpl >> chain
     return chain
 
@@ -358,6 +402,8 @@ def execute(case, result):
             result.count("elements_with_merge_key")
         if not obj:
             result.count("elements_whose_truth_value_is_false")
+        if any(v[0] == "rec" for v in list(e["args"]) + [v for _, v in e["kwargs"]]):
+            result.count("elements_with_an_argument_that_holds_itself")
         compare(list(obj.args), args, eager_seen, problems, "element %d args" % i)
         compare(dict(obj.kwargs), kwargs, eager_seen, problems, "element %d kwargs" % i)
         if e["syntax"] == "type" and e.get("typename", "").count(".") >= 2:
@@ -377,37 +423,49 @@ def execute(case, result):
     if now_tail and not problems and log[0] is not pipeline[-1]:
         problems.append("eagerly built tail is not the first construction")
     # the same pipeline built in Python with >>
-    if not problems:
+    for grouping in ("right", "left"):
+        if problems:
+            break
         vplug.reset()
         try:
-            twin = python_pipeline(case)
+            twin = python_pipeline(case, grouping)
         except Exception as e:  # noqa: B902
-            problems.append("building the same pipeline with >> raised %r" % (e,))
+            problems.append("building the same pipeline with >> (grouped to the %s) raised %r" % (grouping, e))
         else:
             obj = twin
             for i, mine in enumerate(pipeline):
                 if type(obj) is not type(mine):
-                    problems.append("element %d: YAML gives %s, >> gives %s" % (i, type(mine).__name__, type(obj).__name__))
+                    problems.append("element %d: YAML gives %s, >> (grouped to the %s) gives %s" % (i, type(mine).__name__, grouping, type(obj).__name__))
                     break
                 sub = []
-                compare(_plain(mine.args), _plain(obj.args), [], sub, "element %d args vs >>" % i)
-                compare(_plain(mine.kwargs), _plain(obj.kwargs), [], sub, "element %d kwargs vs >>" % i)
+                compare(_plain(mine.args), _plain(obj.args), [], sub, "element %d args vs >> (grouped to the %s)" % (i, grouping))
+                compare(_plain(mine.kwargs), _plain(obj.kwargs), [], sub, "element %d kwargs vs >> (grouped to the %s)" % (i, grouping))
                 problems += sub
                 obj = getattr(obj, "target", None)
             result.count("pipelines_compared_with_rshift")
+            if grouping == "left" and n >= 5:
+                result.count("pipelines_of_5_or_more_compared_with_left_grouped_rshift")
     return [(p + "\n" + text, None) for p in problems[:3]]
 
 
-def _plain(value):
+def _plain(value, memo=None):
     """Snapshots -> comparable plain data."""
     import vplug
 
+    memo = {} if memo is None else memo
+    if id(value) in memo:
+        return memo[id(value)]
+    memo.setdefault("alive", []).append(value)  # ids stay unique while the memo is in use
     if isinstance(value, vplug.Snapshot):
-        return {"__snap__": value.tag, "args": _plain(list(value.final_args)), "kwargs": _plain(dict(value.final_kwargs))}
+        return {"__snap__": value.tag, "args": _plain(list(value.final_args), memo), "kwargs": _plain(dict(value.final_kwargs), memo)}
     if isinstance(value, dict):
-        return {k: _plain(v) for k, v in value.items()}
+        out = memo[id(value)] = {}
+        out.update((k, _plain(v, memo)) for k, v in value.items())
+        return out
     if isinstance(value, (list, tuple)):
-        return [_plain(v) for v in value]
+        out = memo[id(value)] = []
+        out.extend(_plain(v, memo) for v in value)
+        return out
     return value
 
 
@@ -425,7 +483,7 @@ def run_shard(spec):
 
 def finish(total, tier):
     for name in ("documents_valid", "documents_with_failing_constructor", "elements_tag_map", "elements_tag_list", "elements_tag_bare",
-                 "elements_type_map", "nested_eager_tags_checked", "tails_built_while_reading", "pipelines_compared_with_rshift",
+                 "elements_type_map", "nested_eager_tags_checked", "tails_built_while_reading", "pipelines_compared_with_rshift", "pipelines_of_5_or_more_compared_with_left_grouped_rshift", "elements_with_an_argument_that_holds_itself",
                  "extra_sections_digested", "elements_with_nested_type_helper", "failing_constructor_raising_KeyError", "elements_with_merge_key", "elements_whose_truth_value_is_false", "type_elements_named_below_a_class", "pipelines_of_more_than_1000_elements", "construction_logs_matching_the_pipeline"):
         if not total.counters.get(name) and not total.violations:
             total.inconc("monitor never observed: " + name)
